@@ -59,6 +59,8 @@ def run_one(params: dict, chooser) -> dict:
         # the explored dimension is *where the user call lands*: it may be held and released at any boundary; network
         # events keep their default order in quick (thorough also reorders / delays them)
         extra = {} if params.get('net_dev') else {'early': False, 'reorder': False, 'hold_kinds': {'op'}}
+        if params.get('resume'):
+            extra['lazy_exec'] = True      # thread-pool jobs (file exists / remove) complete when the environment says
         tw = TransferWorld(base_dir=base, horizon=200.0, chooser=chooser, op_anywhere=True, op_dedup=True, **extra,
                            settings={'network': {'peer': {'connect_mode': params.get('mode', 'race')}},
                                      'transfers': {'report_interval': 30.0}})
@@ -79,6 +81,29 @@ def run_one(params: dict, chooser) -> dict:
                     if msg.username == 'bob':
                         bob.peer.connect_pierce(60000, msg.ticket, msg.typ)
                 tw.server.auto[M.ConnectToPeer.Request] = on_ctp
+            if params.get('resume'):
+                # the first attempt breaks after 5000 bytes (download INCOMPLETE with a partial file); the uploader
+                # offers the file again when the environment says so
+                bob.auto_retry = False
+
+                def first_offset(off):
+                    bob.auto_offer = False
+                bob.on_offset = first_offset
+                cut_armed = []
+
+                def arm_cut():
+                    for off in bob.offers.values():
+                        pc = off.get('conn')
+                        if pc is not None and not cut_armed:
+                            cut_armed.append(pc)
+                            init_len = pc.end.conn.bytes_sent[0] - 4
+                            pc.end.conn.cut_after[1] = (init_len + 4 + 5000, 'reset')
+                _open = bob._open_file_connection
+
+                def open_and_arm(ticket):
+                    _open(ticket)
+                    arm_cut()
+                bob._open_file_connection = open_and_arm
             tw.start(scan=False)
             world = tw.world
             writes: list[tuple] = []      # (seq, time, conn label, bytes) written by the library
@@ -164,6 +189,11 @@ def run_one(params: dict, chooser) -> dict:
                     bob.offer(PATHS[0])
                 world.post(EnvEvent('inject', 'peer-offers', offers, chan=None,
                                     guard=lambda: any(c[1] == BOB[1] for c in tw.cw.net.connect_log)))
+            elif trig == 'peer-reoffers':
+                def reoffers():
+                    bob.offer(PATHS[0])
+                world.post(EnvEvent('inject', 'peer-reoffers', reoffers, chan=None, guard=lambda: bool(transfers) and
+                                    transfers[0].state.VALUE == TransferState.State.INCOMPLETE))
             world.state_fn = lambda: (
                 tuple((t.state.VALUE.name, t.remotely_queued) for t in transfers), 't' in snap,
                 tuple(sorted(ev.key for ev in world.pending)),
@@ -247,6 +277,10 @@ def scenarios(tier: str):
         for direct in ('fast', 'hang', 'refuse'):
             for indirect in ('pierce', 'silence'):
                 for action in ('abort', 'pause', 'remove'):
+                    if n == 1 and direct == 'fast' and indirect == 'silence':
+                        # resumed download: the uploader offers again while the call is removing the partial file
+                        out.append({'n': 1, 'direct': direct, 'indirect': indirect, 'action': action,
+                                    'trigger': 'peer-reoffers', 'resume': True})
                     for trig in (None, 'status', 'upload-failed', 'peer-offers'):
                         if trig == 'peer-offers' and (direct != 'hang' or n != 1):
                             continue
